@@ -129,40 +129,41 @@ type Obligation struct {
 }
 
 type VC struct {
-	p           *Prog
-	env         *Env
-	fn          *ssa.Function
-	c           *Contract
-	obls        []*Obligation
-	notes       []string
-	outside     []string // reasons the function is outside the supported subset
-	defs        map[string]*defInfo
-	trustedUsed map[string]bool
-	inlinedFns  map[string]bool
+	anchorsHit      map[string]bool
+	p               *Prog
+	env             *Env
+	fn              *ssa.Function
+	c               *Contract
+	obls            []*Obligation
+	notes           []string
+	outside         []string // reasons the function is outside the supported subset
+	defs            map[string]*defInfo
+	trustedUsed     map[string]bool
+	inlinedFns      map[string]bool
 	calledContracts map[string]bool
-	analysing   bool
-	frameSeq    int
-	anchors     map[ssa.Instruction]string
-	globalRefs  map[*ssa.Global]Term
-	ifaceAsserted map[string]types.Type
-	concreteTags  map[string]types.Type
-	fnTags      map[*ssa.Function]int
-	covers      []*Obligation
-	modTop      []modLoc // modifies set of the function under verification (entry state)
-	entry       *State
-	allowAll    bool
-	curFrame    *Frame
-	iters       map[ssa.Value]*rangeIter
-	deferred    []string
-	missing     map[string]bool
-	specErrors  []string
-	topFrame    *Frame
-	exitVars    map[string]scopeVar
-	lemmaName   string
-	axiomsDone  map[string]bool
-	cellFns     map[string]*ssa.Function
-	recovers    bool
-	lemmasUsed  map[string]bool
+	analysing       bool
+	frameSeq        int
+	anchors         map[ssa.Instruction]string
+	globalRefs      map[*ssa.Global]Term
+	ifaceAsserted   map[string]types.Type
+	concreteTags    map[string]types.Type
+	fnTags          map[*ssa.Function]int
+	covers          []*Obligation
+	modTop          []modLoc // modifies set of the function under verification (entry state)
+	entry           *State
+	allowAll        bool
+	curFrame        *Frame
+	iters           map[ssa.Value]*rangeIter
+	deferred        []string
+	missing         map[string]bool
+	specErrors      []string
+	topFrame        *Frame
+	exitVars        map[string]scopeVar
+	lemmaName       string
+	axiomsDone      map[string]bool
+	cellFns         map[string]*ssa.Function
+	recovers        bool
+	lemmasUsed      map[string]bool
 }
 
 func NewVC(p *Prog, fn *ssa.Function, c *Contract) *VC {
